@@ -6,6 +6,7 @@ from analysis import chessref as R
 from analysis.cfg import cfg_of
 from analysis.effects import subterms
 
+THOROUGH_CONFIGS = ['release', 'nobmi2', 'engine-alone']
 LEVEL = "other"
 DECIDED = ("R1 the White/Black policy pair is a mirror pair: COLOR swapped, (WORST, BEST) = (Min, Max)/(Max, Min), Flip types crossed, is_better = `<`/`>` on the same operands, "
            "update_cutoff = alpha=max(score,alpha) / beta=min(score,beta); R2 every branch on a Color value in the core crates (including `match P::COLOR`) has mirror-image arms "
